@@ -1,6 +1,6 @@
 (* C04 — issued tokens never exceed what was granted or what the client may ask for.
    Statements only; proofs are in Proofs/ScopeProofs.v and Proofs/C04Proofs.v. *)
-From Verif Require Import Base Scope Types Prog Pop Token Authorize System Config Run Monitors OneShot ScopeProofs Hoare C04Proofs C04More C04Resources C02Proofs C04Artifacts JwtBearerProofs C04Details.
+From Verif Require Import Base Scope Types Prog Pop Token Authorize System Config Run Monitors OneShot ScopeProofs Hoare C04Proofs C04More C04Resources C02Proofs C04Artifacts JwtBearerProofs C04Details C04Narrow.
 Local Open Scope N_scope.
 
 (* A requested scope string is allowed for a client iff it is empty or every space-separated
@@ -377,3 +377,23 @@ Example details_flow : ex_det_ops <> [] /\ embedder_grants_supported
 Proof.
   split; [discriminate|]. intros d Hd. cbn in Hd. destruct Hd as [<-|[<-|[]]]; vm_compute; auto.
 Qed.
+
+(* The grant is fixed when the user approves.  The embedder's ValidateBackAuthFunc may approve a backchannel
+   request AND narrow the session at that moment (verdict BaNarrow of the model: the granted scopes become
+   narrowed_scopes).  Whatever the store and the request: such a poll yields tokens only if the scopes it
+   names lie inside the NARROWED grant, and the grant it stores has the narrowed scopes as its granted scopes
+   and, as active scopes, the request's (or the narrowed grant when the request names none) - the request is
+   validated against the session as the callback left it, not as it was before. *)
+Theorem ciba_grant_fixed_at_approval : forall w n now r st st' t,
+  t_ba r = BaNarrow ->
+  run_seq (ciba_grant w n now r) st = (st', OTokens t) ->
+  contains_all_scopes narrowed_scopes (t_scope r) = true /\
+  exists g, In g (st_gsess st') /\ g_granted g = narrowed_scopes /\
+            g_active g = (if is_empty (t_scope r) then narrowed_scopes else t_scope r).
+Proof. exact ciba_narrowed_request_within. Qed.
+Print Assumptions ciba_grant_fixed_at_approval.
+
+(* satisfiable, and it is the narrowing that refuses: of three requests granted `openid email`, the poll
+   (narrow, scope email) gets nothing, (narrow, no scope) and (approve, scope email) get tokens *)
+Example ciba_narrowing_example : nx_run = Some [true; false; true; true; true; true].
+Proof. exact narrowing_refuses_the_dropped_scope. Qed.
